@@ -58,9 +58,11 @@ func parsePathAnnotation(annotation *regexp.Regexp, lines []*ast.Comment) (cnt p
 			matches := annotation.FindStringSubmatch(line)
 			if len(matches) > 3 {
 				cnt.Method, cnt.Path, cnt.ID = matches[1], matches[2], matches[len(matches)-1]
-				cnt.Tags = rxSpace.Split(matches[3], -1)
-				if len(matches[3]) == 0 {
-					cnt.Tags = nil
+				cnt.Tags = nil
+				for _, tag := range rxSpace.Split(matches[3], -1) {
+					if tag != "" { // several blanks in a row, or a blank before the operation id
+						cnt.Tags = append(cnt.Tags, tag)
+					}
 				}
 				justMatched = true
 			} else if cnt.Method != "" {
